@@ -75,9 +75,15 @@ void op_tt_null(World& w, const Op& op)
     tt.set_uri(id, std::nullopt); tt.set_third_party_source_id(id, std::nullopt);
     if (w.schema >= eng::engine_schema::schema_2_20_1) tt.set_active_on_load_loops(id, std::nullopt);
 }
+// a membership row whose track does not exist (the public add_track(int64_t) accepts any id; foreign keys are not enforced)
+void op_add_ghost(World& w, const Op& op) { w.crates.at((size_t)op.i.at(0)).add_track((int64_t)987654); }
 struct RegisterOps
 {
-    RegisterOps() { World::register_op("tt_null", op_tt_null); }
+    RegisterOps()
+    {
+        World::register_op("tt_null", op_tt_null);
+        World::register_op("add_ghost", op_add_ghost);
+    }
 } register_ops;
 
 struct Dom : CompositeBase
@@ -85,7 +91,8 @@ struct Dom : CompositeBase
     static std::vector<std::string> seeds(eng::engine_schema s)
     {
         auto v = CompositeBase::seeds(s);
-        if (is_v2(s)) v.push_back("create_track(2);tt_null(0)");
+        if (is_v2(s)) v.push_back("@1:create_track(2);tt_null(0)");
+        v.push_back("@1:create_track(2);create_track(0);create_root(|g);add_track(0,0);add_ghost(0);add_track(0,1)");  // a dangling entry between two real ones
         return v;
     }
     static bool step(World& w, Model& m, const Op& op, const Outcome& r, Agg& a, const std::string&, bool checking)
